@@ -255,6 +255,16 @@ func C08(c *core.Ctx) {
 							}
 						}
 						up := strings.Repeat("../", ups)
+						// "never applies read filters to the steps it walks through": a Find with '../' steps and a query
+						// from the same start selection first, then the plain one - the query must not stick to anything shared
+						if r.Chance(50) {
+							for _, q := range []string{"?content=nonconfig", "?fields=nosuchfield&depth=1"} {
+								if sq, errq := find(osel, up+n.path+q); errq == nil && sq != nil {
+									safeDo(func() error { _, e := nodeutil.WriteJSON(sq); return e })
+								}
+							}
+							c.Count("variant", "dotdot-after-query")
+						}
 						c.Evaluations++
 						c.Count("variant", "dotdot")
 						s3, err3 := find(osel, up+n.path)
